@@ -30,6 +30,8 @@ func gen(stream, tier string, seed uint64) {
 		genStore(tier, seed)
 	case "order":
 		genOrder(tier, seed)
+	case "numclone":
+		genNumClone(tier, seed)
 	case "numbytes":
 		genNumBytes(tier, seed)
 	case "sortmodes":
@@ -155,6 +157,14 @@ func randomAccSeq(r *rng, format string, maxDepth int) string {
 				toks = append(toks, "}")
 			}
 		default:
+			if r.chance(1, 10) {
+				// long byte strings and strings, around the sizes of the encoders' fixed scratch areas (32, 64 bytes)
+				n := []int{31, 32, 33, 63, 64, 65, 127, 200, 1000}[r.intn(9)]
+				body := strings.Repeat([]string{"61", "00", "7f", "22", "5c"}[r.intn(5)], n)
+				pre := []string{"x", "s", "t5.x", "t5.s"}[r.intn(4)]
+				toks = append(toks, pre+body[:2*n])
+				return
+			}
 			toks = append(toks, scalars[r.intn(len(scalars))])
 		}
 	}
@@ -179,6 +189,19 @@ func genAcc(tier string, seed uint64) {
 	for i := 0; i < nRandom; i++ {
 		f := formats[r.intn(len(formats))]
 		emit("acc %s %s", f, randomAccSeq(r, f, 2+r.intn(depth)))
+	}
+	// long scalars in every position (top level, array element, map key, map value), every format
+	for _, f := range formats {
+		for _, n := range []int{32, 33, 64, 65, 200, 3000} {
+			for _, pre := range []string{"x", "s"} {
+				b := pre + strings.Repeat("41", n)
+				emit("acc %s %s", f, b)
+				emit("acc %s [1,%s,]", f, b)
+				emit("acc %s {1,s6b,%s,}", f, b)
+				emit("acc %s {-1,%s,0,}", f, b)
+				emit("acc %s [-1,t7.%s,%s,]", f, b, b)
+			}
+		}
 	}
 	// very deep nesting
 	for _, f := range formats {
